@@ -14,7 +14,9 @@ PROPERTY_ID = 'C05'
 LEVEL = 'exploration'
 LINES_BASE, LINES_PER_BYTE = 20000, 20000
 NODES_BASE, NODES_PER_BYTE = 1000, 64
-RULE = ('copy_work: valid messages with 300 / 3000 small containers decoded from a bytes subclass that counts the bytes '
+RULE = ('repeat: messages under 300 bytes carrying 24 / 40 / 80 repetitions of a legal name unit plus one illegal character in a '
+        'header field or body value must be answered within 20 s (the only wall-clock oracle; this tree needs < 1 ms). '
+        'copy_work: valid messages with 300 / 3000 small containers decoded from a bytes subclass that counts the bytes '
         'slicing copies (work inside C primitives, which the line budget cannot see): at most 8x the message length. '
         'inputs: every truncation of generated valid messages (exhaustive per message), 1-3 byte mutations (bit flip, '
         '00, ff, 7f, 80, random), every length field of the message (body length, header array length, string / array / '
@@ -463,6 +465,82 @@ def classify_copy_work(case):
     return True, [case['shape'], 'n=%d' % case['n']]
 
 
+# --------------------------------------------------------------------------
+# work done inside C primitives, second kind: time spent inside one call (a backtracking regular expression)
+
+class _TooSlow(BaseException):
+    pass
+
+
+REPEAT_SHAPES = {
+    # name -> function k -> text: many repetitions of a legal unit, then one illegal character (what makes a backtracking
+    # matcher try every grouping of the units before it gives up)
+    'path-bad-end': lambda k: '/ab' * k + '!',
+    'path-bad-mid': lambda k: '/ab' * k + '-' + '/ab' * 3,
+    'path-double-slash-end': lambda k: '/a' * k + '//',
+    'name-bad-end': lambda k: 'ab' + '.ab' * k + '!',
+    'name-dot-end': lambda k: 'a' + '.a' * k + '.',
+    'member-bad-end': lambda k: 'ab' * k + '!',
+}
+REPEAT_PLACES = ['path-field', 'interface-field', 'member-field', 'destination-field', 'body-o', 'body-ao', 'body-v-o', 'body-g']
+
+
+def enum_repeat(tier):
+    for shape in sorted(REPEAT_SHAPES):
+        for place in REPEAT_PLACES:
+            for k in (24, 40, 80):
+                yield {'shape': shape, 'place': place, 'k': k}
+
+
+def run_repeat(case):
+    import signal
+    from txdbus import message as MSG
+    text = REPEAT_SHAPES[case['shape']](case['k'])[:250]
+    fields = {1: '/o', 2: 'a.b', 3: 'S'}
+    sig, trees = '', []
+    place = case['place']
+    if place == 'path-field':
+        fields[1] = text
+    elif place == 'interface-field':
+        fields[2] = text
+    elif place == 'member-field':
+        fields[3] = text
+    elif place == 'destination-field':
+        fields[6] = text
+    elif place == 'body-o':
+        sig, trees = 'o', [text]
+    elif place == 'body-ao':
+        sig, trees = 'ao', [['/ok', text]]
+    elif place == 'body-v-o':
+        sig, trees = 'v', [['o', text]]
+    else:
+        sig, trees = 'g', [('a' * case['k'])[:200] + '!']
+    raw = R.encode_message(4, 5, fields, sig, trees)     # the reference ENCODER does not judge names: hostile on purpose
+
+    def on_alarm(signum, frame):
+        raise _TooSlow()
+    old = signal.signal(signal.SIGALRM, on_alarm)
+    signal.setitimer(signal.ITIMER_REAL, 20.0)
+    try:
+        try:
+            MSG.parseMessage(raw, [])
+        except _TooSlow:
+            # the one place where a clock decides: a %d-byte message that is not answered within 20 s (this tree: well under
+            # a millisecond, five orders of magnitude away) - a budget on interpreter lines cannot see time spent inside re
+            return [Disc('repeat.no-answer-within-20s', 'a %d-byte message (%s at %s, %d repetitions) was still being decoded '
+                                                       'after 20 seconds' % (len(raw), case['shape'], place, case['k']))]
+        except Exception:
+            pass
+    finally:
+        signal.setitimer(signal.ITIMER_REAL, 0)
+        signal.signal(signal.SIGALRM, old)
+    return []
+
+
+def classify_repeat(case):
+    return True, [case['shape'], case['place']]
+
+
 SUBCHECKS = [
     Subcheck('hostile', run, classify_, strategy=lambda tier: hostile_case(tier),
              n={'quick': 700, 'thorough': 8000}),
@@ -483,5 +561,8 @@ SUBCHECKS = [
     Subcheck('copy_work', run_copy_work, classify_copy_work, enumerate=enum_copy_work, shards={'quick': 4, 'thorough': 4},
              exhaustive_note='valid messages holding 300 / 3000 (/ 30000) small containers of 7 shapes, decoded from a bytes '
                              'subclass that counts what slicing copies: at most 8x the message length'),
+    Subcheck('repeat', run_repeat, classify_repeat, enumerate=enum_repeat, shards={'quick': 4, 'thorough': 4},
+             exhaustive_note='6 texts made of 24 / 40 / 80 repetitions of a legal unit plus one illegal character x 8 places '
+                             '(name-carrying header fields, o / ao / v / g in the body): answered within 20 s'),
     Subcheck('atheris', run_any, classify_any, enumerate=enum_atheris, shards={'quick': 1, 'thorough': 8}),
 ]
